@@ -167,6 +167,7 @@ impl TaskLogWriter {
                 }
             }
             self.bytes_stored = self.bytes_stored.saturating_add(take as u64);
+            let _ = self.file.flush().await;
         }
         if (take as u64) < chunk.len() as u64 {
             self.truncated = true;
